@@ -78,7 +78,16 @@ func runTree(c *Case) *Obs {
 	var its []kvIter
 	o := &Obs{}
 	nkeys := 0
+	// "Copies of a Map or Set value denote the same collection": every operation goes through one of two
+	// copies of the value, alternating
+	m0, m1 := m, m
+	s0, s1 := s, s
 	for opi, op := range c.Ops {
+		if opi%2 == 0 {
+			m, s = m0, s0
+		} else {
+			m, s = m1, s1
+		}
 		name := op[0].(string)
 		var res any
 		p, _ := protect(func() {
